@@ -1,0 +1,27 @@
+//go:build verif
+
+// Read-only hook for the C16 verification harness in /verif (allocation-free
+// routing). Only compiled with -tags verif; touches no existing code.
+
+package fox
+
+// VerifCtxCaps takes n contexts out of the pool of the currently published
+// tree (allocating fresh ones once the pool is empty), records the largest
+// capacity of each of the three per-context buffers among them, and puts them
+// all back. A capacity larger than the one allocateContext gives (maxParams,
+// maxParams, depth) means that buffer was grown while serving a request.
+func (fox *Router) VerifCtxCaps(n int) (params, tsrParams, skipNds int) {
+	tree := fox.getRoot()
+	cs := make([]*cTx, 0, n)
+	for i := 0; i < n; i++ {
+		c := tree.ctx.Get().(*cTx)
+		cs = append(cs, c)
+		params = max(params, cap(*c.params))
+		tsrParams = max(tsrParams, cap(*c.tsrParams))
+		skipNds = max(skipNds, cap(*c.skipNds))
+	}
+	for _, c := range cs {
+		tree.ctx.Put(c)
+	}
+	return
+}
